@@ -30,6 +30,8 @@ def d1(ctx):
             continue
         if name.startswith('_') and not name.startswith('__'):
             continue        # private helper: judged inlined into the public methods that use it
+        if name == 'reset':
+            continue        # `key` names a setting, not an item
         ok, why, wit = True, '', None
         n = 0
         for p in ctx.paths(f, 'default'):
